@@ -135,4 +135,4 @@ def check_one(case, ctx, shared=None):
 
 
 def subchecks():
-    return [HypSub("copeland", cases, check, 5000, 60000)]
+    return [HypSub("copeland", cases, check, 12000, 150000)]
